@@ -44,6 +44,8 @@ def run_one(mut, tier, with_tests):
         ov = make_overlay(mut, tmp)
         binp = os.path.join(tmp, "cctpmc")
         env = dict(ENV, VERIF_BUILD_FLAGS=f"-overlay {ov}", VERIF_BIN=binp)
+        if "C18" in (mut["property"] if isinstance(mut["property"], list) else [mut["property"]]):
+            env["VERIF_RACE"] = "1"
         b = subprocess.run([os.path.join(VERIF, "build.sh")], env=env, capture_output=True, text=True)
         if b.returncode != 0:
             res["status"] = "BUILD-FAILED"
